@@ -160,6 +160,12 @@ Theorem C09_unnest_rejected_only_when_circular :
   forall us out', Permutation us out' -> scoped_order (map fst us) [] out' = true -> sort_unnestings us <> None.
 Proof. exact sort_rejects_only_cycles. Qed.
 
+Theorem C09_unnest_accepted_exactly_when_orderable :
+  forall us, NoDup (map fst us) ->
+  (sort_unnestings us <> None <->
+   exists out', Permutation us out' /\ scoped_order (map fst us) [] out' = true).
+Proof. exact sort_succeeds_iff_orderable. Qed.
+
 Example ex_unnest_sorted :
   sort_unnestings [("x_2", ["x_10"; "a"]); ("x_10", []); ("x_1", ["x_2"])]%string =
   Some [("x_10", []); ("x_2", ["x_10"; "a"]); ("x_1", ["x_2"])]%string.
